@@ -147,17 +147,20 @@ def run(ctx):
     ctx.ob("R-ORDER", "C01.2", f, "inserted point's `it` is the (already advanced) iteration", src(fa.stmt(P).value) == "self.iteration", f"`{fa.text(P)}`", node=fa.stmt(P))
     X_ = fa.find_calls("self.insertion_indices.append")
     X, xcall = fa.one(X_, "self.insertion_indices.append call")
-    idx_ok = isinstance(nst, ast.Assign) and isinstance(nst.targets[0], ast.Name) and len(xcall.args) == 1 and src(xcall.args[0]) == nst.targets[0].id
+    # either through a local (`i = insert_live_point(p); indices.append(i)`) or directly (`indices.append(insert_live_point(p))`)
+    idx_ok = len(xcall.args) == 1 and ((isinstance(nst, ast.Assign) and isinstance(nst.targets[0], ast.Name) and src(xcall.args[0]) == nst.targets[0].id) or xcall.args[0] is ncall)
     ctx.ob("R-ORDER", "C01.2", f, "recorded insertion index is the value returned by insert_live_point", idx_ok, f"`{fa.text(N)}` ; `{src(xcall)}`", node=xcall)
 
     chain = [("read worst", W), ("logLmin", L), ("state.increment", I), ("nested_samples.append", A), ("iteration += 1", T), ("it := iteration", P), ("insert_live_point", N), ("insertion_indices.append", X)]
     for (na, a), (nb, b) in zip(chain, chain[1:]):
+        if a == b:  # one statement does both (argument evaluation precedes the call)
+            continue
         ok = fa.precedes_on_all_paths(a, b) and fa.never_after(a, b) if na not in ("it := iteration", "insert_live_point") else fa.precedes_on_all_paths(a, b)
         ctx.ob("R-ORDER", "C01.2", f, f"order: {na} before {nb} on every path", ok, f"`{fa.text(a)}` ... `{fa.text(b)}`", node=fa.stmt(b))
     for name, n in [("state.increment", I), ("nested_samples.append", A), ("iteration += 1", T), ("read worst", W)]:
         ctx.ob("R-ORDER", "C01.2", f, f"{name} executes exactly once per consume_sample (outside the retry loop, on every path)", fa.once(n) and fa.on_every_normal_path(n), f"`{fa.text(n)}`", node=fa.stmt(n))
     # after insertion, the index append follows on every path before leaving
-    ctx.ob("R-ORDER", "C01.2", f, "every insert_live_point is followed by insertion_indices.append before the function returns", fa.every_path_from_passes(N, [X]), f"`{fa.text(N)}`", node=nst)
+    ctx.ob("R-ORDER", "C01.2", f, "every insert_live_point is followed by insertion_indices.append before the function returns", N == X or fa.every_path_from_passes(N, [X]), f"`{fa.text(N)}`", node=nst)
     # the function returns only after an insertion
     ctx.ob("R-ORDER", "C01.2", f, "consume_sample returns only after a replacement was inserted", fa.cfg.every_exit_path_passes(fa.cfg.entry, [N]), "all normal exits pass insert_live_point", node=nst)
     ctx.floor("C01.2", 18)
